@@ -2,6 +2,7 @@ import ConfModel.Driver.Common
 import ConfModel.Model.Delimited
 import ConfModel.Spec.Framing
 import ConfModel.Model.SyncPipe
+import ConfModel.Model.PeerLoop
 namespace ConfModel.Driver.C09
 open Lean ConfModel.Driver ConfModel.Delimited ConfModel.Framing
 
@@ -192,6 +193,49 @@ def sessionHandle (inp impl : Json) : Verdict :=
     why := if holds then "" else
       s!"session: {sent} messages ({nat (field impl "bytes")} bytes, message boundaries after each segment at {(arr (field impl "marks")).map (fun m => nat m)}) were written to one decoder; {got} came back, then '{last}' (first different message: {int (field impl "firstBad")})" }
 
+/-! ### op "peerloop": every peer command's own read loop, under every partition of stdin into reads -/
+
+def peerloopHandle (inp impl : Json) : Verdict :=
+  if str (field impl "err") != "" then bad ("peerloop: " ++ str (field impl "err")) else
+  let peer := str (field inp "peer")
+  let js := bool (field inp "json")
+  let server := peer == "grpcserver" || peer == "referenceserver"
+  let want := strList (field impl "want")
+  let got := strList (field impl "got")
+  let exit := str (field impl "exit")
+  let valueEnds := natList (field impl "valueEnds")
+  let textEnds := natList (field impl "textEnds")
+  let cutAt := nat (field impl "cutAt")
+  -- the declarative reading of the bytes handed out: messages that are complete, and whether only
+  -- white space (JSON) / nothing (binary) follows the last complete one
+  let complete := (valueEnds.filter (· ≤ cutAt)).length
+  let clean := (complete == 0 && cutAt == 0) || (complete > 0 && cutAt ≤ textEnds.getD (complete - 1) 0)
+  let count := if server then 1 else want.length + 1
+  let wantGot := if server then (if complete ≥ 1 then ["server"] else []) else want.take complete
+  let inOrder := server || nat (field inp "p") == 1
+  let namesOK := if inOrder then got == wantGot else got.isPerm wantGot
+  -- a clean end ⇒ clean exit; a truncated stream ⇒ error exit (binary: unexpected EOF); a server needs its one message
+  let exitOK :=
+    if server then (if complete ≥ 1 then exit == "ok" else if cutAt == 0 then exit == "eof" else exit != "ok" && exit != "hang" && exit != "eof")
+    else if clean then exit == "ok"
+    else if js then exit != "ok" && exit != "hang" && exit != "eof" else exit == "unexpectedEOF"
+  let holds := namesOK && exitOK && !(bool (field impl "outJunk"))
+  -- model (binary variant): the loop over ONE read-ahead decoder on the pieces as handed out
+  let data := unhex (str (field impl "stream"))
+  let mRes := PeerLoop.loopOne 4294967295 count [] (PeerLoop.pieces (natList (field impl "pieces")) data)
+  let sRes := expected 4294967295 count data .eofSeparate
+  let mMsgs := (mRes.filter Res.isMsg).length
+  let mLast := match mRes.getLast? with | some .eof => "eof" | some .unexpectedEOF => "unexpectedEOF" | some (.msg _) => "msg" | _ => "other"
+  let iLast := if server then (if got.length == 1 && exit == "ok" then "msg" else exit) else (if exit == "ok" then "eof" else exit)
+  let agree :=
+    if js then holds
+    else mRes == sRes && mMsgs == got.length && mLast == iLast && endsOf 0 mRes == (valueEnds.take complete).take count
+  { agree := agree, holds := holds, nontrivial := cutAt > 0,
+    cls := "peerloop:" ++ peer ++ (if js then ":json:" else ":binary:") ++ str (field inp "reads") ++ ":" ++ str (field inp "cut"),
+    model := if js then Json.null else Json.mkObj [("results", toJson (mRes.map (showRes 4294967295)))],
+    why := if holds then (if agree then "" else "implementation differs from the model") else
+      s!"peerloop: {peer}{if js then " -json" else ""} was given {cutAt} of the {nat (field impl "len")} bytes of {want.length} message(s) ({complete} complete, {if clean then "clean end" else "truncated"}) in reads of {natList (field impl "pieces")} bytes: it must answer exactly {wantGot}{if inOrder then " in this order" else ""} and exit {if clean || (server && complete ≥ 1) then "without error" else "with an error"}; it answered {got} and exited '{exit}' {str (field impl "exitText")}" }
+
 def handle : Handler := fun op inp impl =>
   if !(isNull (field impl "panic")) then
     { agree := false, holds := false, why := "panic: " ++ str (field impl "panic") } else
@@ -200,6 +244,7 @@ def handle : Handler := fun op inp impl =>
   | "pipe" => pipeHandle inp impl
   | "session" => sessionHandle inp impl
   | "clientstall" => stallHandle inp impl
+  | "peerloop" => peerloopHandle inp impl
   | "read" =>
     let data := unhex (str (field inp "bytes"))
     let caps := natList (field inp "caps")
